@@ -865,6 +865,40 @@ func isCallTo(c *Ctx, v ssa.Value, name string) bool {
 	return cal != nil && relName(cal) == name
 }
 
+// ruleEqKindWord: the kind two stacks are compared by (stack.kind) is made of
+// the kind itself and the fold option only - presentation settings such as
+// the symbol or the delimiter do not flow into it (two stacks of different
+// kinds carrying the same symbol are not equal).
+func (c *Ctx) ruleEqKindWord() {
+	rep := c.rep
+	fn := c.anchor("R-COVER", "stack.kind")
+	if fn == nil {
+		return
+	}
+	ss := srcSet{}
+	for _, b := range fn.Blocks {
+		for _, in := range b.Instrs {
+			if ret, ok := in.(*ssa.Return); ok && len(ret.Results) > 0 {
+				c.sources(fn, ret.Results[0], 0, map[ssa.Value]bool{}, ss)
+			}
+		}
+	}
+	allowed := map[string]bool{"nodeConfig.typ": true, "nodeConfig.opt": true}
+	var other []string
+	for _, f := range ss.fields() {
+		if strings.HasPrefix(f, "nodeConfig.") && !allowed[f] {
+			other = append(other, f)
+		}
+	}
+	sort.Strings(other)
+	switch {
+	case len(other) > 0:
+		rep.bad("R-COVER", "stack.kind", "kind word only", c.p.pos(fn.Pos()), "the kind two stacks are compared by also depends on "+strings.Join(other, ", ")+": stacks of different kinds with the same presentation setting would compare equal")
+	default:
+		rep.ok("R-COVER", "stack.kind", "kind word only", c.p.pos(fn.Pos()), "no presentation setting (symbol, delimiter, ...) flows into the kind two stacks are compared by")
+	}
+}
+
 // ruleDerefLoop: "a pointer to one at any depth": derefPtr follows pointers
 // until none is left - its loop is left only where the current type is not a
 // pointer, the value's kind is not Ptr, or the pointer is nil.  A hop limit
@@ -927,6 +961,26 @@ func (c *Ctx) ruleDerefLoop() {
 	}
 	if nExit == 0 {
 		problems = append(problems, "no loop exit found")
+	}
+	// a pointer is followed only when it points somewhere: Elem() / Indirect on a nil pointer
+	// yields the zero Value, and every later Convert/Interface on it panics
+	for _, b := range fn.Blocks {
+		for _, in := range b.Instrs {
+			call, ok := in.(*ssa.Call)
+			if !ok {
+				continue
+			}
+			cal := c.p.callee(&call.Call)
+			if cal == nil || (cal.String() != "(reflect.Value).Elem" && cal.String() != "reflect.Indirect") || len(call.Call.Args) == 0 {
+				continue
+			}
+			if !fa.allHold(call, func(s *State) bool {
+				v, known := fa.knownTerm(s, aTR, c.eng.tt.mk(Term{K: "ISNIL", A: fa.term(s, call.Call.Args[0])}))
+				return known && !v
+			}) {
+				problems = append(problems, c.p.instrPos(call)+": a pointer Value is followed without having tested non-nil (a typed nil pointer to an alias would become the zero Value)")
+			}
+		}
 	}
 	if len(problems) == 0 {
 		rep.ok("R-COVER", "derefPtr", "pointers followed to the end", pos, "the loop ends only on a non-pointer type, a non-pointer value or a nil pointer")
